@@ -48,6 +48,12 @@ pub trait AttrTrait {
     fn cfg_on(&self);
     #[cfg(any())]
     fn cfg_off(&self);
+    #[doc = "M15-mirrored"]
+    async fn kept_async(&self, a: u8) -> u8;
+    #[cfg(all())]
+    async fn cfg_on_async(&self);
+    #[cfg(any())]
+    async fn cfg_off_async(&self);
 }
 
 #[entrait(AttrInvImpl, delegate_by = DelegateAttrInv)]
